@@ -96,14 +96,40 @@ def r_cagrad(c):
     from torchjd.aggregation import CAGrad
     cc, eps = num(c["c"]), num(c["norm_eps"])
     def run(J):
-        A = CAGrad(c=cc, norm_eps=eps)
+        nonlocal_eps = eps
+        A = CAGrad(c=cc, norm_eps=nonlocal_eps)
         out = A(t64(J)).numpy()
         g0 = J.mean(0)
         lhs, rhs = float(np.linalg.norm(out - g0)), cc * float(np.linalg.norm(g0))
         zero = float(np.linalg.norm(out)) <= 1e-12 * max(np.abs(J).max(), 1e-300)
-        ok = zero or abs(lhs - rhs) <= 1e-4 * max(np.abs(J).max(), rhs, 1e-300)
-        return dict(reproduced=not ok, dist=lhs, expected=rhs, out=out.tolist(), J=J.tolist())
-    return scale_ladder(run, gram_to_matrix(c["G"]))
+        # the zero vector is the stated answer only "at stationarity": in the code's terms |J^T w| < norm_eps in normalised units for the optimal w.  It
+        # cannot be the case when the matrix is not below norm_eps and EVERY convex combination of the normalised rows is longer than norm_eps
+        # (with a 0.1 % margin, so that a boundary case decided by rounding is no witness)
+        from real_agg2 import _min_norm_value
+        G = J @ J.T
+        smax = float(np.linalg.svd(J, compute_uv=False).max()) if J.size else 0.0
+        zero_impossible = smax >= eps * 1.001 and smax > 0 and np.sqrt(_min_norm_value(G / smax ** 2)) >= eps * 1.001
+        if zero:
+            ok = not zero_impossible
+        else:
+            ok = abs(lhs - rhs) <= 1e-4 * max(np.abs(J).max(), rhs, 1e-300)
+        return dict(reproduced=not ok, dist=lhs, expected=rhs, out=out.tolist(), J=J.tolist(), zero_output=bool(zero), zero_cannot_be_stationarity=bool(zero_impossible))
+    first = scale_ladder(run, gram_to_matrix(c["G"]))
+    if first.get("reproduced"):
+        return first
+    # the solver's witness sits on a boundary (|J^T w| = norm_eps exactly) where rounding decides: look for a witness of the same clause away from it -
+    # two-row matrices of increasing condition number, the counterexample's c and norm_eps as well as the default norm_eps
+    eps0 = eps
+    for e_ in (eps0, 1e-4):
+        for cond in (3.0, 10.0, 30.0, 100.0, 300.0, 1000.0, 1e4):
+            for base in ([[1.0, 1.0], [-1.0, 1.0]], [[2.0, 1.0], [-1.0, 1.0]], [[1.0, 1.0], [1.0, -1.0]]):
+                Jc = np.asarray(base, dtype=float) * np.array([1.0, 1.0 / cond])
+                eps = e_
+                r = run(Jc)
+                if r.get("reproduced"):
+                    return dict(r, norm_eps=e_, found_by="two-row matrices of increasing condition number (the solver's witness lies on a rounding boundary)")
+    eps = eps0
+    return first
 
 
 # ------------------------------------------------------------------------------------------- C16
